@@ -164,13 +164,13 @@ var accTable = []accEntry{
 	{"NTPServers", 42, "ips", func(p *dhcpv4.DHCPv4, _ time.Duration) string { return showIPsC(p.NTPServers()) }, true},
 	{"NetBIOSNameServers", 44, "ips", func(p *dhcpv4.DHCPv4, _ time.Duration) string { return showIPsC(p.NetBIOSNameServers()) }, true},
 	{"DNS", 6, "ips", func(p *dhcpv4.DHCPv4, _ time.Duration) string { return showIPsC(p.DNS()) }, true},
-	{"DomainName", 15, "str", func(p *dhcpv4.DHCPv4, _ time.Duration) string { return hx([]byte(p.DomainName())) }, true},
+	{"DomainName", 15, "strz", func(p *dhcpv4.DHCPv4, _ time.Duration) string { return hx([]byte(p.DomainName())) }, true},
 	{"HostName", 12, "strz", func(p *dhcpv4.DHCPv4, _ time.Duration) string { return hx([]byte(p.HostName())) }, true},
-	{"RootPath", 17, "str", func(p *dhcpv4.DHCPv4, _ time.Duration) string { return hx([]byte(p.RootPath())) }, true},
+	{"RootPath", 17, "strz", func(p *dhcpv4.DHCPv4, _ time.Duration) string { return hx([]byte(p.RootPath())) }, true},
 	{"BootFileNameOption", 67, "strz", func(p *dhcpv4.DHCPv4, _ time.Duration) string { return hx([]byte(p.BootFileNameOption())) }, true},
 	{"TFTPServerName", 66, "strz", func(p *dhcpv4.DHCPv4, _ time.Duration) string { return hx([]byte(p.TFTPServerName())) }, true},
 	{"ClassIdentifier", 60, "str", func(p *dhcpv4.DHCPv4, _ time.Duration) string { return hx([]byte(p.ClassIdentifier())) }, true},
-	{"Message", 56, "str", func(p *dhcpv4.DHCPv4, _ time.Duration) string { return hx([]byte(p.Message())) }, true},
+	{"Message", 56, "strz", func(p *dhcpv4.DHCPv4, _ time.Duration) string { return hx([]byte(p.Message())) }, true},
 	{"IPAddressLeaseTime", 51, "durdef", func(p *dhcpv4.DHCPv4, d time.Duration) string {
 		return strconv.FormatInt(int64(p.IPAddressLeaseTime(d)), 10)
 	}, true},
@@ -271,13 +271,13 @@ var ctorTable = []ctorEntry{
 	{"OptRenewTimeValue", "IPAddressRenewalTime", "dur", func(a string) dhcpv4.Option { return dhcpv4.OptRenewTimeValue(durArg(a)) }},
 	{"OptRebindingTimeValue", "IPAddressRebindingTime", "dur", func(a string) dhcpv4.Option { return dhcpv4.OptRebindingTimeValue(durArg(a)) }},
 	{"OptIPv6OnlyPreferred", "IPv6OnlyPreferred", "dur", func(a string) dhcpv4.Option { return dhcpv4.OptIPv6OnlyPreferred(durArg(a)) }},
-	{"OptDomainName", "DomainName", "str", func(a string) dhcpv4.Option { return dhcpv4.OptDomainName(string(unhx(a))) }},
+	{"OptDomainName", "DomainName", "strz", func(a string) dhcpv4.Option { return dhcpv4.OptDomainName(string(unhx(a))) }},
 	{"OptHostName", "HostName", "strz", func(a string) dhcpv4.Option { return dhcpv4.OptHostName(string(unhx(a))) }},
-	{"OptRootPath", "RootPath", "str", func(a string) dhcpv4.Option { return dhcpv4.OptRootPath(string(unhx(a))) }},
+	{"OptRootPath", "RootPath", "strz", func(a string) dhcpv4.Option { return dhcpv4.OptRootPath(string(unhx(a))) }},
 	{"OptBootFileName", "BootFileNameOption", "strz", func(a string) dhcpv4.Option { return dhcpv4.OptBootFileName(string(unhx(a))) }},
 	{"OptTFTPServerName", "TFTPServerName", "strz", func(a string) dhcpv4.Option { return dhcpv4.OptTFTPServerName(string(unhx(a))) }},
 	{"OptClassIdentifier", "ClassIdentifier", "str", func(a string) dhcpv4.Option { return dhcpv4.OptClassIdentifier(string(unhx(a))) }},
-	{"OptMessage", "Message", "str", func(a string) dhcpv4.Option { return dhcpv4.OptMessage(string(unhx(a))) }},
+	{"OptMessage", "Message", "strz", func(a string) dhcpv4.Option { return dhcpv4.OptMessage(string(unhx(a))) }},
 	{"OptUserClass", "UserClass", "ucstr", func(a string) dhcpv4.Option { return dhcpv4.OptUserClass(string(unhx(a))) }},
 	{"OptRFC3004UserClass", "UserClass", "strings", func(a string) dhcpv4.Option {
 		var ss []string
